@@ -95,11 +95,15 @@ def setup(vc, scr):
     """Warm the build cache (race and non-race) so that the first quick run is fast. Files on disk only."""
     t0 = time.time()
     rc = 0
+    os.makedirs(os.path.join(HERE, "evidence"), exist_ok=True)
     for pkg, race in [("./internal/ircserver", False), ("./internal/outputstream", False), (".", False),
-                      ("./internal/api", False), ("./internal/raftstore", False), (".", True)]:
+                      ("./internal/api", False), ("./internal/raftstore", False), ("./internal/timesafeguard", False),
+                      (".", True), ("./internal/outputstream", True)]:
         try:
             vc.build_test(scr, pkg, race=race)
         except vc.Broken as e:
+            if "no test files" in str(e):
+                continue
             print("setup: build failed for", pkg, str(e)[:3000])
             rc = 3
     print("setup done in %.1fs" % (time.time() - t0))
@@ -481,3 +485,16 @@ register("C20", title="no data races", pkg=".", race=True,
          floor={"quick": 1000, "thorough": 20000},
          technique="Go race detector over an overlap-measuring stress harness",
          level_text="absence of reports on the interleavings that happened; a clean run is not race freedom")
+
+
+register("C04", title="exactly-once, in-order resume", pkg="./internal/api",
+         parts=[{"test": "^TestVerifC04$", "children": {"quick": 16, "thorough": 16}, "cases": {"quick": 8, "thorough": 190}}],
+         timeout={"quick": 400, "thorough": 3000}, level="exploration",
+         rule="2-3 replicas (real api.HTTP + OutputStream + a real single-voter raft node) receive the same seeded batch list (1-5 replies per batch, random "
+              "recipient sets, unique payloads) following independent lag plans; a client reads GET /messages over HTTP in seeded segments: it disconnects "
+              "after k messages (between and inside batches), resumes with lastseen on a seeded replica that is caught up, behind the client, or catches up "
+              "while the request runs (also during the code's back-off). The concatenated stream must be exactly the messages addressed to the session in "
+              "(id, reply) order; afterwards a caught-up replica must deliver the sentinel (bounded progress: 3 resumes x 5s). evaluations = segments read; "
+              "distinct = (number of replicas, sequence of resume situations)",
+         floor={"quick": 300, "thorough": 6000},
+         technique="client-side history check (unique payloads: order, no duplicate, no gap) over the real HTTP long-poll path")
